@@ -192,7 +192,7 @@ class Ctx:
         e["VERIF_SEED"] = str(self.seed)
         e["VERIF_TIER"] = self.tier
         if race:
-            e["GORACE"] = "halt_on_error=0 history_size=5 log_path=%s" % (self.scratch / "race")
+            e["GORACE"] = "halt_on_error=0 exitcode=0 history_size=5 log_path=%s" % (self.scratch / "race")
         if env:
             e.update(env)
         try:
